@@ -35,8 +35,15 @@ class LockRoles:
                     if isinstance(t, ast.Attribute) and isinstance(t.value, ast.Name) and t.value.id == 'self':
                         self.cls = c
                         self.tl = t.attr
+        self.has_tl = self.cls is not None
         if self.cls is None:
-            raise AnalysisError('no class with a threading lock attribute in filelock.py')
+            # the thread lock is a protective construct: fall back to the class that defines acquire/release
+            for c in u.classes():
+                if u.scopes.get(f'{c.qualname}.acquire') is not None and u.scopes.get(f'{c.qualname}.release') is not None:
+                    self.cls = c
+                    self.tl = '<no thread lock>'
+        if self.cls is None:
+            raise AnalysisError('no lock class (acquire/release) in filelock.py')
         cls = self.cls
         self.init = u.scopes[f'{cls.qualname}.__init__']
         m = lambda name: p.func(FILE, f'{cls.qualname}.{name}')
@@ -162,6 +169,10 @@ def c02(ctx: Ctx) -> None:
     ctx.rule('C02-R7', 'the result of acquire() is never dropped at a call site inside the package', 2)
     ctx.rule('C02-R8', 'a function that both acquires and releases reaches release() only through the success edge of its own acquire()', 1)
     # R1/R2 via the affine interpreter
+    if not r.has_tl:
+        ctx.violation('C02-R1', 'no in-process threading lock attribute', f'{FILE}:{r.init.lineno}',
+                      'two threads sharing one FileLock object both take the is_locked fast path',
+                      construct=construct_key(r.init.qualname, 'no thread lock'))
     try:
         it, outs = run_acquire(ctx, r)
         trues = [o for o in outs if o.kind == 'return' and _ret_const(o) is True]
